@@ -37,8 +37,10 @@ ASSUMPTIONS = [
     "'space' is formalised as char::is_whitespace minus '\\n' (the code trims with str::trim_end); the U+0020-only "
     "reading holds on texts whose only whitespace is U+0020 and '\\n' (C20_strict_on_plain) and fails in general "
     "('a\\t b' at width 1 drops the tab: strict_reading_refuted)",
-    "styled text: the indent re-emitted after an inserted break is the wrapper's carry-over, which StyledStr::wrap "
-    "does not reset between text segments; the theorem C20_styled therefore allows any whitespace-only indent",
+    "styled text: the indent re-emitted after an inserted break is the wrapper's carry-over; since /repo 63452b4 "
+    "StyledStr::wrap resets the wrapper after every line that ended with a newline, also across text segments "
+    "(the model follows the repaired code; C20_styled_stale_carryover keeps the pre-repair function as a witness); "
+    "a segment that continues a line keeps the carry-over, so C20_styled allows any whitespace-only indent",
 ]
 TECHNIQUE = ("Coq proof (faithful look-behind model of LineWrapper::wrap shown equal to a look-ahead formulation; "
              "inductive rewrite relation Wrapped; width invariant) + extracted-model/implementation correspondence")
